@@ -8,7 +8,7 @@ handler is the function whose address registration installs, descriptors are ide
 member they were loaded from / stored to, and the mode flag is the file-scope variable the
 functions branch on.
 """
-from ..core import (AnalysisBroken, Inliner, canon, strip, walk, last_member, members, _norm_cond1, forward,
+from ..core import (AnalysisBroken, Inliner, Block, subst, canon, strip, strip_load, walk, last_member, members, _norm_cond1, forward,
                     relpath, names_of, lvalue_root)
 from ..analyses import clone_cfg
 from .. import interp, roles
@@ -22,11 +22,394 @@ EINTR = 4
 # --------------------------------------------------------------------------
 
 def inl(prog, f):
-    """f with its static helpers inlined (normalised: flag partitioning, copy propagation)."""
+    """f with the helpers of its own translation unit inlined (static functions, header inlines, and functions with
+    external linkage defined in the same file; functions of other units are operations of another module and stay
+    calls; normalised: flag partitioning, copy propagation), calls through constant
+    file-scope tables of function pointers resolved to a switch over the table index, branches decided by
+    constants (arguments of merged entry points) folded."""
     cache = prog.__dict__.setdefault('_h09_inl', {})
     if f.q not in cache:
-        cache[f.q] = Inliner(prog, stop=lambda t: not t.static).inline(f)
+        unit = prog.unit_of(f)
+        g = TableInliner(prog, stop=lambda t: not t.static and (unit is None or prog.unit_of(t) != unit)).inline(f)
+        call_values(g)
+        prune_const(g)
+        cache[f.q] = g
     return cache[f.q]
+
+
+# --------------------------------------------------------------------------
+# constant file-scope data (tables indexed by the mode), calls through such tables
+# --------------------------------------------------------------------------
+
+def _is_gvar(x):
+    return isinstance(x, dict) and x.get('k') == 'var' and x.get('vk') in ('global', 'staticlocal')
+
+
+def _declared_const(t):
+    t = str(t or '')
+    if '*' in t:
+        t = t.rsplit('*', 1)[1]
+    return 'const' in t.replace('[', ' ').replace(']', ' ').split()
+
+
+def global_reads(G):
+    """{canon path: expression} of the file-scope objects whose *value* the function reads (anywhere: conditions,
+    right-hand sides, arguments, indices); `&g`, `&g.f` do not read g."""
+    c = getattr(G, '_h09_greads', None)
+    if c is not None:
+        return c
+    out = {}
+
+    def path(e, addr):
+        # e is a var/member/index node
+        idx = []
+        x = e
+        while isinstance(x, dict):
+            k = x.get('k')
+            if k == 'member' and not x['arrow']:
+                x = strip_load(x['base'])
+            elif k == 'index':
+                idx.append(x['idx'])
+                x = strip_load(x['base'])
+            elif k in ('cast', 'paren') and 'e' in x:
+                x = strip_load(x['e'])
+            else:
+                break
+        for i in idx:
+            visit(i, False)
+        if isinstance(x, dict) and x.get('k') == 'member' and x['arrow']:
+            visit(x['base'], False)
+            return
+        if _is_gvar(x):
+            if not addr:
+                out.setdefault(canon(e), e)
+            return
+        if isinstance(x, dict) and x.get('k') == 'var':
+            return
+        visit(x, False)
+
+    def visit(e, addr):
+        if isinstance(e, list):
+            for y in e:
+                visit(y, addr)
+            return
+        if not isinstance(e, dict):
+            return
+        k = e.get('k')
+        if k == 'addr':
+            visit(e['e'], True)
+            return
+        if k in ('load', 'cast', 'paren', 'stmtexpr') and 'e' in e:
+            visit(e['e'], addr)
+            return
+        if k in ('var', 'member', 'index'):
+            path(expand(G, e) if k == 'member' else e, addr)
+            return
+        for key, v in e.items():
+            if key in ('sizeof', '_was') or not isinstance(v, (dict, list)):
+                continue
+            visit(v, False)
+
+    for blk in G.blocks.values():
+        if blk.term and blk.term.get('cond') is not None:
+            visit(blk.term['cond'], False)
+        for e in blk.events:
+            for key in ('rhs', 'args', 'value', 'fnexpr', 'init', 'e'):
+                if key in e:
+                    visit(e[key], False)
+            if e['ev'] == 'store':
+                # the location stored to is not read (its index / pointer operands are); `x op= e` reads it
+                visit(e['lhs'], e.get('op') == '=')
+    G._h09_greads = out
+    return out
+
+
+def _path_root_name(x):
+    x = strip_load(x)
+    while isinstance(x, dict):
+        k = x.get('k')
+        if k == 'var':
+            return x['name'] if x.get('vk') in ('global', 'staticlocal') else None
+        if k == 'member' and not x['arrow']:
+            x = strip_load(x['base'])
+        elif k == 'index':
+            x = strip_load(x['base'])
+        elif k in ('cast', 'paren', 'load') and 'e' in x:
+            x = x['e']
+        else:
+            return None
+    return None
+
+
+def constant_data(prog, unit, name):
+    """The file-scope object never changes: declared const, or static, never stored to, its address never
+    taken and (arrays) never passed on as a pointer."""
+    cache = prog.__dict__.setdefault('_h09_const', {})
+    key = (unit, name)
+    if key in cache:
+        return cache[key]
+    g = prog.global_for(unit, name)
+    res = False
+    if isinstance(g, dict) and not g.get('extern_decl'):
+        if _declared_const(g.get('type')):
+            res = True
+        elif g.get('static') and not prog.global_writers(name):
+            res = True
+            isarr = '[' in str(g.get('type', ''))
+            for f in prog.all_funcs():
+                if prog.unit_of(f) not in (unit, None):
+                    continue
+                for e in f.events():
+                    for x in walk(e):
+                        if x.get('k') == 'addr' and _path_root_name(x['e']) == name:
+                            res = False
+                if isarr and name in global_reads(f):
+                    res = False           # the bare array decays to a pointer somewhere
+                if not res:
+                    break
+    cache[key] = res
+    return res
+
+
+ZERO = {'k': 'int', 'v': 0}
+
+
+def fold_data(prog, unit, e, asg, env):
+    """e with reads of constant file-scope data replaced by their initialisers (indices evaluated under asg/env)."""
+    def ev_int(x):
+        try:
+            v = interp.evaluate(fold(x), asg, env)
+        except (interp.Undecided, KeyError, TypeError, ZeroDivisionError):
+            return None
+        return v if isinstance(v, int) else None
+
+    def resolve(x):
+        x = strip(x)
+        if not isinstance(x, dict):
+            return None
+        k = x.get('k')
+        if k == 'var':
+            if _is_gvar(x) and constant_data(prog, unit, x['name']):
+                g = prog.global_for(unit, x['name'])
+                return g.get('init', ZERO)
+            return None
+        if k == 'member' and not x['arrow']:
+            b = resolve(x['base'])
+            if isinstance(b, dict) and b.get('k') == 'init' and 'fields' in b:
+                return b['fields'].get(x['field'], ZERO)
+            return None
+        if k == 'index':
+            b = resolve(x['base'])
+            if not (isinstance(b, dict) and b.get('k') == 'init' and 'elems' in b):
+                return None
+            i = ev_int(x['idx'])
+            if i is not None and 0 <= i < len(b['elems']):
+                return b['elems'][i]
+            return None
+        return None
+
+    def fold(x):
+        if isinstance(x, list):
+            return [fold(y) for y in x]
+        if not isinstance(x, dict):
+            return x
+        if x.get('k') in ('load', 'member', 'index', 'var'):
+            r = resolve(x)
+            if isinstance(r, dict) and r.get('k') != 'init':
+                return fold(r) if r is not x else r
+        return {key: (fold(v) if isinstance(v, (dict, list)) and key not in ('sizeof',) else v) for key, v in x.items()}
+    if prog is None:
+        return e
+    return fold(e)
+
+
+def accessors(prog, unit, e, depth=0):
+    """e with calls of pure accessor functions (static, no parameters, body `return <expression without calls>;`)
+    replaced by the returned expression"""
+    def r(n):
+        if n.get('k') != 'call' or 'callee' not in n or n.get('args') or depth > 3:
+            return None
+        t = prog.resolve(unit, n['callee']) if unit else None
+        if t is None or not t.static or not t.blocks or t.params:
+            return None
+        f0 = t.pristine() if hasattr(t, 'pristine') else t
+        evs = [e_ for e_ in f0.events() if e_['ev'] not in ('load',)]
+        if len(evs) != 1 or evs[0]['ev'] != 'ret' or 'value' not in evs[0]:
+            return None
+        v = evs[0]['value']
+        if any(y.get('k') in ('call', 'assign', 'incdec') for y in walk(v)):
+            v2 = accessors(prog, unit, v, depth + 1)
+            if any(y.get('k') in ('call', 'assign', 'incdec') for y in walk(v2)):
+                return None
+            return v2
+        return v
+    return subst(e, r)
+
+
+def table_slot(prog, unit, G, fnexpr):
+    """fnexpr reads a function pointer out of a constant file-scope array (of function pointers, or of records with
+    a function pointer member): (index expression, [function name per row]); None otherwise.
+    `p = &T[i]; p->f` counts (single origin of p)."""
+    x = strip(expand(G, accessors(prog, unit, fnexpr)))
+    if isinstance(x, dict) and x.get('k') == 'deref':           # (*T[i])(...)
+        x = strip(x['e'])
+    field = None
+    if isinstance(x, dict) and x.get('k') == 'member' and not x['arrow']:
+        field = x['field']
+        x = strip_load(x['base'])
+    if not (isinstance(x, dict) and x.get('k') == 'index'):
+        return None
+    ix = x
+    t = strip_load(ix['base'])
+    if not (_is_gvar(t) and constant_data(prog, unit, t['name'])):
+        return None
+    init = prog.global_for(unit, t['name']).get('init')
+    if not (isinstance(init, dict) and init.get('k') == 'init' and init.get('elems')):
+        return None
+    rows = []
+    for el in init['elems']:
+        if field is not None:
+            v = el.get('fields', {}).get(field) if isinstance(el, dict) and el.get('k') == 'init' else None
+        else:
+            v = el
+        v = strip(v) if isinstance(v, dict) else None
+        if isinstance(v, dict) and v.get('k') == 'addr':
+            v = strip(v['e'])
+        if not (isinstance(v, dict) and v.get('k') == 'var' and v.get('vk') == 'func'):
+            return None
+        rows.append(v['name'])
+    return ix['idx'], rows
+
+
+class TableInliner(Inliner):
+    """Inliner that also enters the functions a constant table of function pointers can select
+    (`T[i].op(...)`): all rows' functions become alternatives of a dispatch block, which is then
+    turned into a switch over the index expression, so that the choice stays correlated with the mode."""
+
+    def _targets(self, caller, e, known_table=None):
+        tg = Inliner._targets(self, caller, e, known_table)
+        if tg or 'callee' in e or 'fnexpr' not in e:
+            return tg
+        unit = self.prog.unit_of(caller)
+        ts = table_slot(self.prog, unit, caller, e['fnexpr']) if unit else None
+        if ts is None:
+            return tg
+        out = []
+        for nm in ts[1]:
+            t = self.prog.resolve(unit, nm)
+            if t is None or not t.blocks or self.stop(t):
+                return tg
+            if t not in out:
+                out.append(t)
+        return out
+
+    def inline(self, f):
+        g = Inliner.inline(self, f)
+        unit = self.prog.unit_of(f)
+        nxt = max(g.blocks) + 1
+        for b in sorted(g.blocks):
+            blk = g.blocks[b]
+            if not (blk.term and blk.term.get('cls') == 'MethodDispatch' and blk.events and blk.events[-1]['ev'] == 'enter'
+                    and 'fnexpr' in blk.events[-1]):
+                continue
+            en = blk.events[-1]
+            ts = table_slot(self.prog, unit, g, en['fnexpr']) if unit else None
+            if ts is None:
+                continue
+            idx, rows = ts
+            qs = []
+            for nm in rows:
+                t = self.prog.resolve(unit, nm)
+                qs.append(t.q if t is not None else None)
+            if any(q not in en.get('targets', []) for q in qs) or len(en['targets']) != len(blk.succ):
+                continue
+            succ = []
+            for q in qs:
+                g.blocks[nxt] = Block(nxt, [], [blk.succ[en['targets'].index(q)]], None)
+                succ.append(nxt)
+                nxt += 1
+            blk.succ = succ
+            blk.term = {'cls': 'SwitchStmt', 'cond': idx, 'cases': list(range(len(rows))), 'loc': en.get('loc'), 'table_dispatch': True}
+        g._preds = None
+        return g
+
+
+def call_values(G):
+    """The inliner replaces the value of an inlined call by its result variable only within the source block of the
+    call; a use in a later block (`x = helper() ? a : b` is lowered to a branch followed by the store) still spells
+    the call.  Replace those by a read of the result variable of that call instance."""
+    ent, m = {}, {}
+    for e in G.events():
+        if e['ev'] == 'enter' and 'callee' in e:
+            ent[e.get('inst')] = e
+    for e in G.events():
+        if e['ev'] == 'leave' and e.get('retvar') and e.get('inst') in ent:
+            en = ent[e['inst']]
+            m.setdefault((en['callee'], en.get('loc')), []).append((repr(en.get('chain') or []), e['retvar'], e.get('rettype')))
+    if not m:
+        return G
+
+    def fix(x, chain):
+        def r(n):
+            if n.get('k') == 'call' and (n.get('callee'), n.get('loc')) in m:
+                c = m[(n.get('callee'), n.get('loc'))]
+                if len({v for (_, v, _) in c}) > 1:
+                    c = [y for y in c if y[0] == chain]
+                if len({v for (_, v, _) in c}) == 1:
+                    return {'k': 'load', 'e': {'k': 'var', 'name': c[0][1], 'vk': 'local', 'type': c[0][2]}}
+            return None
+        return subst(x, r)
+    for blk in G.blocks.values():
+        chain = None
+        for e in blk.events:
+            chain = repr(e.get('chain') or [])
+            if e['ev'] in ('enter', 'leave'):
+                continue
+            for key in ('rhs', 'args', 'value', 'fnexpr', 'lhs', 'init'):
+                if key in e and any(x.get('k') == 'call' for x in walk(e[key])):
+                    e[key] = fix(e[key], chain)
+        if blk.term and blk.term.get('cond') is not None and any(x.get('k') == 'call' for x in walk(blk.term['cond'])):
+            blk.term = dict(blk.term, cond=fix(blk.term['cond'], chain))
+    return G
+
+
+def prune_const(G):
+    """Remove the edges that a condition built from constants only decides the other way (arguments of a merged
+    entry point substituted for its selector parameter), and the blocks that become unreachable."""
+    asg = interp.Assignment()
+    changed = False
+    for blk in G.blocks.values():
+        t = blk.term
+        if not t or t.get('cond') is None or len(blk.succ) < 2 or any(x.get('k') in ('var', 'call', 'member', 'deref', 'index')
+                                                                    for x in walk(t['cond'])):
+            continue
+        try:
+            val = interp.evaluate(t['cond'], asg, {})
+        except (interp.Undecided, KeyError, TypeError, ZeroDivisionError):
+            continue
+        if t.get('cls') == 'SwitchStmt':
+            cases = t.get('cases', [])
+            pick = [s_ for s_, cv in zip(blk.succ, cases) if cv == val] or [s_ for s_, cv in zip(blk.succ, cases) if cv == 'default']
+            if not pick:
+                continue
+            blk.succ = [pick[0]]
+        elif len(blk.succ) == 2 and t.get('cls') != 'MethodDispatch':
+            blk.succ = [blk.succ[0] if val else blk.succ[1]]
+        else:
+            continue
+        blk.term = None
+        changed = True
+    if changed:
+        live = G.reachable_blocks()
+        live.add(G.exit)
+        for b in [b for b in G.blocks if b not in live]:
+            del G.blocks[b]
+        G._preds = None
+        for b in G.blocks.values():
+            for i, e in enumerate(b.events):
+                e['_b'] = b.id
+                e['_i'] = i
+    return G
 
 
 def handler_of(prog, reg, R):
@@ -39,21 +422,23 @@ def handler_of(prog, reg, R):
         lm = last_member(e['lhs'])
         if not lm or lm[1] != 'handler_in' or lm[0] not in ('iv_fd', 'iv_fd_'):
             continue
-        r = strip(e['rhs'])
-        if isinstance(r, dict) and r.get('k') == 'addr':
-            r = strip(r['e'])
-        if isinstance(r, dict) and r.get('k') == 'var' and r.get('vk') == 'func':
-            names[r['name']] = e
-    inst = []
-    for k in ('iv_fd', 'iv_fd_'):
-        for g in roles.installed_in(prog, k, 'handler_in'):
-            if g not in inst:
-                inst.append(g)
+        for r in walk(e['rhs']):
+            # directly, as an arm of a `?:`, ...
+            if r.get('k') == 'var' and r.get('vk') == 'func':
+                names[r['name']] = e
+        # ... or read out of a constant table of function pointers
+        unit0 = prog.unit_of(reg)
+        ts = table_slot(prog, unit0, R, e['rhs']) if unit0 else None
+        if ts is not None:
+            for nm in ts[1]:
+                names[nm] = e
+    # the store executed by (inlined) registration is the installation itself; the name must resolve to a function
+    # of the library with a body (roles.installed_in sees plain `x.handler_in = f` stores only)
     unit = prog.unit_of(reg)
     out = []
     for n in sorted(names):
         g = prog.resolve(unit, n) if unit else None
-        if g is not None and g in inst and g not in out:
+        if g is not None and g.blocks and g not in out:
             out.append(g)
     return out
 
@@ -119,6 +504,17 @@ def expand(G, x, _depth=0):
         return dict(x, base=b)
     if k == 'addr':
         return dict(x, e=expand(G, x['e'], _depth))
+    if k == 'deref':
+        # `p = &obj->f; ... *p`  reads as  `obj->f`
+        b = expand(G, x['e'], _depth)
+        sb = strip(b)
+        if isinstance(sb, dict) and sb.get('k') == 'var' and sb.get('vk') in ('local', 'param'):
+            o = origins(G, sb)
+            if len(o) == 1 and o[0] is not sb and not (o[0].get('k') == 'var' and o[0].get('name') == sb.get('name')):
+                sb = strip(expand(G, o[0], _depth + 1))
+        if isinstance(sb, dict) and sb.get('k') == 'addr':
+            return sb['e']
+        return dict(x, e=b)
     return x
 
 
@@ -163,84 +559,141 @@ def is_read_end_object(G, expr):
 # mode flag
 # --------------------------------------------------------------------------
 
-def flags_read(G):
-    """File-scope variables the function discriminates on (branch conditions, ?: conditions)."""
+def flags_read(prog, unit, G):
+    """Mode discriminators of the function: the mutable file-scope objects (defined by the library) whose value it
+    reads, as canonical access paths (`flag`, `state.flag`).  Constant data (tables indexed by the mode) and
+    variables of the C library (stderr) are not module state."""
     out = set()
-    def scan(c):
-        for x in walk(c):
-            if x.get('k') == 'var' and x.get('vk') in ('global', 'staticlocal'):
-                out.add(x['name'])
-    for blk in G.blocks.values():
-        c = blk.term.get('cond') if blk.term else None
-        if c is not None and len(blk.succ) >= 2:
-            scan(c)
-    for e in G.events():
-        for key in ('rhs', 'init', 'args', 'value'):
-            if key in e:
-                for x in walk(e[key]):
-                    if x.get('k') == 'cond':
-                        scan(x['c'])
+    for c, x in global_reads(G).items():
+        nm = _path_root_name(x)
+        g = prog.global_for(unit, nm) if nm else None
+        if not isinstance(g, dict) or (g.get('extern_decl') and g.get('file', '').startswith('/usr')):
+            continue
+        if constant_data(prog, unit, nm):
+            continue
+        out.add(c)
     return out
 
 
+def _steps(c):
+    return c.replace('->', '.>').split('.')
+
+
+def _overlaps(c, flag):
+    """a store to the location spelled c may change the object spelled flag"""
+    a, b = _steps(c), _steps(flag)
+    for x, y in zip(a, b):
+        if x.startswith('>') or y.startswith('>'):
+            return True
+        if x != y:
+            if '[' in x or '[' in y:
+                return x.split('[')[0] == y.split('[')[0]
+            return False
+    return True
+
+
+def _flag_store(e, flag):
+    if e['ev'] != 'store':
+        return False
+    r = lvalue_root(e['lhs'])
+    root = _steps(flag)[0].split('[')[0]
+    if r is None or r.get('vk') not in ('global', 'staticlocal') or r['name'] != root:
+        return False
+    return _overlaps(canon(e['lhs']), flag)
+
+
 def flag_written(G, flag):
-    for e in G.events():
-        if e['ev'] == 'store':
-            r = lvalue_root(e['lhs'])
-            if r is not None and r.get('vk') in ('global', 'staticlocal') and r['name'] == flag:
-                return True
-    return False
+    return any(_flag_store(e, flag) for e in G.events())
+
+
+def _const_values(prog, f, expr, depth=0):
+    """set of integer constants the expression can evaluate to in f: a constant, or a (never assigned) parameter of a
+    static function whose every call site passes such a value (setter helpers); None when not constant."""
+    x = strip(expr)
+    if not isinstance(x, dict):
+        return None
+    if x.get('k') == 'int':
+        return {x['v']}
+    if x.get('k') == 'cond':
+        a, b = _const_values(prog, f, x['a'], depth), _const_values(prog, f, x['b'], depth)
+        return None if a is None or b is None else a | b
+    if x.get('k') == 'var' and x.get('vk') == 'param' and f.static and depth < 4:
+        names = [p_['name'] for p_ in f.params]
+        if x['name'] not in names:
+            return None
+        pi = names.index(x['name'])
+        for e in f.events():
+            if e['ev'] == 'store' and strip(e['lhs']).get('k') == 'var' and strip(e['lhs'])['name'] == x['name']:
+                return None
+            if any(y.get('k') == 'addr' and strip(y['e']).get('k') == 'var' and strip(y['e'])['name'] == x['name'] for y in walk(e)):
+                return None
+            if any(y.get('k') == 'var' and y.get('vk') == 'func' and y['name'] == f.name for y in walk(e)):
+                return None
+        out = set()
+        sites = [(g, e) for (g, e) in prog.callers_of(f.name) if prog.unit_of(g) in (prog.unit_of(f), None) or not f.file.endswith('.c')]
+        for g in prog.all_funcs():
+            # the function's address is taken: unknown callers
+            for e in g.events():
+                for y in walk(e):
+                    if y.get('k') == 'var' and y.get('vk') == 'func' and y['name'] == f.name and not (e['ev'] == 'call' and e.get('callee') == f.name):
+                        return None
+        for (g, e) in sites:
+            if pi >= len(e.get('args', [])):
+                return None
+            vs = _const_values(prog, g, e['args'][pi], depth + 1)
+            if vs is None:
+                return None
+            out |= vs
+        return out
+    return None
 
 
 def flag_domain(prog, unit, flag):
     """Values the flag can hold: its initialiser and every constant stored into it."""
     vals = {0}
-    g = prog.global_for(unit, flag)
-    init = strip(g.get('init')) if isinstance(g, dict) and isinstance(g.get('init'), dict) else None
+    st = _steps(flag)
+    g = prog.global_for(unit, st[0])
+    init = g.get('init') if isinstance(g, dict) else None
+    for fld in st[1:]:
+        if isinstance(init, dict) and init.get('k') == 'init' and 'fields' in init:
+            init = init['fields'].get(fld, ZERO)
+        else:
+            init = None
+    init = strip(init) if isinstance(init, dict) else None
     if isinstance(init, dict) and init.get('k') == 'int':
         vals.add(init['v'])
-    for (f, e) in prog.global_writers(flag):
-        r = strip(e.get('rhs')) if 'rhs' in e else None
-        if e.get('op') == '=' and isinstance(r, dict) and r.get('k') == 'int':
-            vals.add(r['v'])
-        else:
+    elif isinstance(g, dict) and 'init' in g:
+        raise AnalysisBroken('mode flag %s: initialiser not understood' % flag)
+    for (f, e) in prog.global_writers(st[0]):
+        if not _flag_store(e, flag):
+            continue
+        vs = _const_values(prog, f, e.get('rhs')) if e.get('op') == '=' and canon(e['lhs']) == flag and 'rhs' in e else None
+        if vs is None:
             raise AnalysisBroken('mode flag %s is written a non-constant at %s' % (flag, relpath(e.get('loc'))))
+        vals |= vs
     if not any(v != 0 for v in vals):
         vals.add(1)
     return sorted(vals)
 
 
-def specialise(G, flag, v):
-    """CFG of G under flag == v (G must not write the flag): conditional edges the value decides
-    the other way are removed.  Events are shared with G."""
-    asg = interp.Assignment(ints={flag: v})
-    g = clone_cfg(G)
-    for blk in g.blocks.values():
-        t = blk.term
-        if not t or t.get('cond') is None or len(blk.succ) < 2:
-            continue
-        try:
-            val = interp.evaluate(t['cond'], asg, {})
-        except (interp.Undecided, KeyError, TypeError, ZeroDivisionError):
-            continue
-        if t.get('cls') == 'SwitchStmt':
-            cases = t.get('cases', [])
-            pick = [s for s, cv in zip(blk.succ, cases) if cv == val] or [s for s, cv in zip(blk.succ, cases) if cv == 'default']
-            if not pick:
-                continue
-            blk.succ = [pick[0]]
-        elif len(blk.succ) == 2:
-            blk.succ = [blk.succ[0] if val else blk.succ[1]]
-        else:
-            continue
-        blk.term = dict(t, cls='Forced')
-        blk.term.pop('cond', None)
-    g._preds = None
-    return g, asg
+def expand_all(G, e):
+    """expand() applied to every access path inside e"""
+    def r(n):
+        if n.get('k') in ('member', 'deref'):
+            x = expand(G, n)
+            if x is not n and canon(x) != canon(n):
+                return x
+        return None
+    return subst(e, r)
 
 
-def const_envs(g, asg):
-    """{(bid, i): {local: int}} constants of integer locals before every event of g (must analysis)."""
+def _eval(prog, unit, G, e, asg, env):
+    return interp.evaluate(fold_data(prog, unit, expand_all(G, e) if G is not None else e, asg, env), asg, env)
+
+
+def const_envs(g, asg, prog=None, unit=None):
+    """{(bid, i): frozenset((local, int))} constants of integer locals before every event of g and at the end of every
+    block (i = number of events); must analysis.  Reads of constant file-scope tables are folded."""
     def tr(e, S):
         ev = e['ev']
         if ev == 'store':
@@ -249,7 +702,7 @@ def const_envs(g, asg):
                 S = frozenset(x for x in S if x[0] != l['name'])
                 if e.get('op') == '=' and 'rhs' in e:
                     try:
-                        val = interp.evaluate(e['rhs'], asg, dict(S))
+                        val = _eval(prog, unit, g, e['rhs'], asg, dict(S))
                         if isinstance(val, int):
                             S = S | {(l['name'], val)}
                     except (interp.Undecided, KeyError, TypeError, ZeroDivisionError):
@@ -268,12 +721,52 @@ def const_envs(g, asg):
     return ev_in
 
 
-def value_at(ev_in, asg, e, expr):
+def specialise(G, flag, v, prog=None, unit=None):
+    """CFG of G under flag == v (G must not write the flag): conditional edges that the value (and the integer locals
+    computed from it, and constant tables indexed by them) decides the other way are removed, to a fixpoint.
+    Events are shared with G."""
+    asg = interp.Assignment(ints={flag: v})
+    g = clone_cfg(G)
+    for _round in range(6):
+        envs = const_envs(g, asg, prog, unit)
+        live = g.reachable_blocks()
+        changed = False
+        for b, blk in g.blocks.items():
+            t = blk.term
+            if b not in live or not t or t.get('cond') is None or len(blk.succ) < 2:
+                continue
+            env = envs.get((b, len(blk.events)))
+            if env is None:
+                continue
+            try:
+                val = _eval(prog, unit, g, t['cond'], asg, dict(env))
+            except (interp.Undecided, KeyError, TypeError, ZeroDivisionError):
+                continue
+            if t.get('cls') == 'SwitchStmt':
+                cases = t.get('cases', [])
+                pick = [s for s, cv in zip(blk.succ, cases) if cv == val] or [s for s, cv in zip(blk.succ, cases) if cv == 'default']
+                if not pick:
+                    continue
+                blk.succ = [pick[0]]
+            elif len(blk.succ) == 2 and t.get('cls') != 'MethodDispatch':
+                blk.succ = [blk.succ[0] if val else blk.succ[1]]
+            else:
+                continue
+            blk.term = dict(t, cls='Forced')
+            blk.term.pop('cond', None)
+            changed = True
+        g._preds = None
+        if not changed:
+            break
+    return g, asg
+
+
+def value_at(ev_in, asg, e, expr, prog=None, unit=None, G=None):
     S = ev_in.get((e['_b'], e['_i']))
     if S is None:
         return None
     try:
-        val = interp.evaluate(expr, asg, dict(S))
+        val = _eval(prog, unit, G, expr, asg, dict(S))
     except (interp.Undecided, KeyError, TypeError, ZeroDivisionError):
         return None
     return val if isinstance(val, int) else None
@@ -323,11 +816,13 @@ class TS:
        E     : locals holding errno as left by it
        elive : errno itself still is the one left by it (no other call since)
        eq/ne : errno is known to equal / differ from these constants
-       disp  : the sink ran since the latest source call"""
+       disp  : the sink ran since the latest source call
+       K     : integer locals with a known constant value on this path (classification codes, flags)"""
     __slots__ = ('t',)
 
-    def __init__(self, n=False, cur=None, V=frozenset(), sign=ALL, E=frozenset(), elive=False, eq=None, ne=frozenset(), disp=False):
-        self.t = (n, cur, V, sign, E, elive, eq, ne, disp)
+    def __init__(self, n=False, cur=None, V=frozenset(), sign=ALL, E=frozenset(), elive=False, eq=None, ne=frozenset(), disp=False,
+                 K=frozenset()):
+        self.t = (n, cur, V, sign, E, elive, eq, ne, disp, K)
 
     n = property(lambda s: s.t[0])
     cur = property(lambda s: s.t[1])
@@ -338,6 +833,13 @@ class TS:
     eq = property(lambda s: s.t[6])
     ne = property(lambda s: s.t[7])
     disp = property(lambda s: s.t[8])
+    K = property(lambda s: s.t[9])
+
+    def known(self, name):
+        for (k, v) in self.K:
+            if k == name:
+                return v
+        return None
 
     def __eq__(self, o):
         return isinstance(o, TS) and self.t == o.t
@@ -346,7 +848,8 @@ class TS:
         return hash(self.t)
 
     def but(self, **kw):
-        d = dict(n=self.n, cur=self.cur, V=self.V, sign=self.sign, E=self.E, elive=self.elive, eq=self.eq, ne=self.ne, disp=self.disp)
+        d = dict(n=self.n, cur=self.cur, V=self.V, sign=self.sign, E=self.E, elive=self.elive, eq=self.eq, ne=self.ne, disp=self.disp,
+                 K=self.K)
         d.update(kw)
         return TS(**d)
 
@@ -397,6 +900,14 @@ def track(G, is_src, is_sink=None):
         return st.elive and is_errno(x)
 
     def assume(st, op, l, n):
+        x = strip(l)
+        if isinstance(x, dict) and x.get('k') == 'var' and st.K:
+            c = st.known(x['name'])
+            if c is not None:
+                return st if cmp_const(c, op, n) else None
+        if isinstance(x, dict) and x.get('k') == 'var' and x.get('vk') in ('local', 'param') and op == '==' \
+                and x['name'] not in st.V and x['name'] not in st.E:
+            st = st.but(K=frozenset(y for y in st.K if y[0] != x['name']) | {(x['name'], n)})
         if not st.n:
             return st
         if refers_result(st, l):
@@ -415,11 +926,53 @@ def track(G, is_src, is_sink=None):
                 return st.but(ne=st.ne | {n})
         return st
 
+    SRC = {(e.get('callee'), e.get('loc')) for e in G.events() if e['ev'] == 'call' and is_src(e)}
+
+    def other_source(st, arm):
+        """the arm of a `?:` contains a source call that is not the latest one executed: evaluating the arm would have
+        made it the latest, so this arm was not the one selected"""
+        return any(y.get('k') == 'call' and (y.get('callee'), y.get('loc')) in SRC and (y.get('callee'), y.get('loc')) != st.cur
+                   for y in walk(arm))
+
+    def const_val(st, r):
+        try:
+            v = interp.evaluate(r, interp.Assignment(), dict(st.K))
+        except (interp.Undecided, KeyError, TypeError, ZeroDivisionError, ValueError):
+            return None
+        return v if isinstance(v, int) and not isinstance(v, bool) else None
+
+    def kill(st, names):
+        if st.V & names or st.E & names or any(k in names for (k, _) in st.K):
+            return st.but(V=st.V - names, E=st.E - names, K=frozenset(y for y in st.K if y[0] not in names))
+        return st
+
+    def assign(st, nm, r, depth=0):
+        """states after `nm = r`"""
+        x = strip(r)
+        if isinstance(x, dict) and x.get('k') == 'cond' and depth < 3:
+            out = []
+            for pol, arm in ((True, x['a']), (False, x['b'])):
+                if other_source(st, arm):
+                    continue
+                for s1 in assume_cond(st, x['c'], pol):
+                    out += assign(s1, nm, arm, depth + 1)
+            return out
+        res, err = st.n and refers_result(st, x), st.n and refers_errno(st, x)
+        c = None if (res or err) else const_val(st, r)
+        st = kill(st, frozenset([nm]))
+        if res:
+            st = st.but(V=st.V | {nm})
+        elif err:
+            st = st.but(E=st.E | {nm})
+        elif c is not None:
+            st = st.but(K=st.K | {(nm, c)})
+        return [st]
+
     def tr1(e, st):
         ev = e['ev']
         if ev in ('call', 'enter'):
             if is_src(e):
-                return TS(n=True, cur=(e.get('callee'), e.get('loc')), elive=True)
+                return [TS(n=True, cur=(e.get('callee'), e.get('loc')), elive=True, K=st.K)]
             drop = set()
             for a in e.get('args', []):
                 a = strip(a)
@@ -427,40 +980,89 @@ def track(G, is_src, is_sink=None):
                     w = strip(a['e'])
                     if isinstance(w, dict) and w.get('k') == 'var':
                         drop.add(w['name'])
-            if drop and (st.V & drop or st.E & drop):
-                st = st.but(V=st.V - drop, E=st.E - drop)
+            if drop:
+                st = kill(st, frozenset(drop))
             if ev == 'call' and e.get('callee') != '__errno_location' and st.elive:
                 st = st.but(elive=False)
             if is_sink is not None and is_sink(e) and not st.disp:
                 st = st.but(disp=True)
-            return st
+            return [st]
         if ev == 'store':
             l = strip(e['lhs'])
+            if l.get('k') == 'deref':
+                # out-parameter of an inlined helper: `*&x = v`, `*p = v` with p = &x
+                l = strip(expand(G, l))
             if l.get('k') == 'var':
-                nm = l['name']
-                V, E = st.V - {nm}, st.E - {nm}
-                if e.get('op') == '=' and 'rhs' in e and st.n:
-                    r = strip(e['rhs'])
-                    if refers_result(st, r):
-                        V = V | {nm}
-                    elif refers_errno(st, r):
-                        E = E | {nm}
-                if V != st.V or E != st.E:
-                    st = st.but(V=V, E=E)
-            return st
+                if e.get('op') == '=' and 'rhs' in e:
+                    return assign(st, l['name'], e['rhs'])
+                return [kill(st, frozenset([l['name']]))]
+            return [st]
         if ev == 'decl':
-            if e['name'] in st.V or e['name'] in st.E:
-                st = st.but(V=st.V - {e['name']}, E=st.E - {e['name']})
-            return st
-        return st
+            return [kill(st, frozenset([e['name']]))]
+        return [st]
 
     def tr(e, S):
-        return frozenset(tr1(e, st) for st in S)
+        return frozenset(s2 for st in S for s2 in tr1(e, st))
+
+    def cmp_const(a, op, b):
+        return {'==': a == b, '!=': a != b, '<': a < b, '<=': a <= b, '>': a > b, '>=': a >= b}.get(op, True)
+
+    def assume_all(st, op, l, n, depth=0):
+        """states in which `l op n` holds; a conditional expression `c ? a : b` compared with a
+        constant is the disjunction (c and a op n) or (not c and b op n)"""
+        x = strip(l)
+        if isinstance(x, dict) and x.get('k') == 'cond' and depth < 4:
+            out = []
+            for pol, arm in ((True, x['a']), (False, x['b'])):
+                if other_source(st, arm):
+                    continue
+                for s1 in assume_cond(st, x['c'], pol, depth + 1):
+                    out += assume_all(s1, op, arm, n, depth + 1)
+            return out
+        if isinstance(x, dict) and x.get('k') in ('int', 'null'):
+            return [st] if cmp_const(0 if x['k'] == 'null' else x['v'], op, n) else []
+        if isinstance(x, dict) and depth < 4 and ((x.get('k') == 'bin' and x.get('op') in ('==', '!=', '<', '<=', '>', '>=', '&&', '||'))
+                                                  or (x.get('k') == 'un' and x.get('op') == '!')):
+            # a truth value (0/1) compared with a constant, e.g. the index of a two-entry table
+            out = []
+            for tv in (1, 0):
+                if cmp_const(tv, op, n):
+                    out += assume_cond(st, x, bool(tv), depth + 1)
+            return out
+        s2 = assume(st, op, l, n)
+        return [] if s2 is None else [s2]
+
+    def assume_cond(st, cond, pol, depth=0):
+        c = strip(cond)
+        if isinstance(c, dict) and depth < 8:
+            if c.get('k') == 'un' and c.get('op') == '!':
+                return assume_cond(st, c['e'], not pol, depth + 1)
+            if c.get('k') == 'bin' and c.get('op') in ('&&', '||'):
+                if (c['op'] == '&&') == pol:
+                    # both operands have the polarity
+                    return [s2 for s1 in assume_cond(st, c['l'], pol, depth + 1) for s2 in assume_cond(s1, c['r'], pol, depth + 1)]
+                # `A && B` false: !A, or A and !B;  `A || B` true: A, or !A and B
+                out = assume_cond(st, c['l'], pol, depth + 1)
+                for s1 in assume_cond(st, c['l'], not pol, depth + 1):
+                    out = out + assume_cond(s1, c['r'], pol, depth + 1)
+                return out
+        S = [st]
+        for (op, lc, rc, l, r) in _norm_cond1(cond, pol):
+            if op == 'const':
+                if lc == 'False':
+                    return []
+                continue
+            n = _const(r, rc)
+            if n is None or not isinstance(l, dict):
+                continue
+            S = [s2 for s1 in S for s2 in assume_all(s1, op, l, n, depth)]
+        return S
 
     def edge(blk, si, S):
         t = blk.term
         if not t or t.get('cond') is None or len(blk.succ) < 2 or t.get('cls') == 'MethodDispatch':
             return S
+        out = set()
         if t.get('cls') == 'SwitchStmt':
             cases = t.get('cases', [])
             if si >= len(cases):
@@ -471,26 +1073,16 @@ def track(G, is_src, is_sink=None):
                 atoms = [('==', t['cond'], cases[si])]
             else:
                 atoms = []
+            for st in S:
+                cur = [st]
+                for (op, l, n) in atoms:
+                    cur = [s2 for s1 in cur for s2 in assume_all(s1, op, l, n)]
+                out.update(cur)
         elif len(blk.succ) == 2:
-            atoms = []
-            for (op, lc, rc, l, r) in _norm_cond1(t['cond'], si == 0):
-                if op == 'const':
-                    if lc == 'False':
-                        return None
-                    continue
-                n = _const(r, rc)
-                if n is not None and isinstance(l, dict):
-                    atoms.append((op, l, n))
+            for st in S:
+                out.update(assume_cond(st, t['cond'], si == 0))
         else:
             return S
-        out = set()
-        for st in S:
-            for (op, l, n) in atoms:
-                st = assume(st, op, l, n)
-                if st is None:
-                    break
-            if st is not None:
-                out.add(st)
         return frozenset(out) if out else None
 
     _, ev_in = forward(G, frozenset([TS()]), tr, lambda a, b: a | b, edge=edge)
@@ -550,7 +1142,7 @@ class _Path:
                 return lo if v[0] == 's' else -lo
         return None
 
-    def constrain(self, i, op, n):
+    def constrain(self, i, op, n, _rec=False):
         lo, hi, ne = self.bounds(i)
         if op == '==':
             lo, hi = max(lo, n), min(hi, n)
@@ -572,6 +1164,14 @@ class _Path:
             return False
         self.facts[i] = (lo, hi, ne)
         lb = self.label.get(i)
+        if lb and lb[0] == 'not' and not _rec:
+            # !x is non-zero exactly when x is zero
+            if lo > 0 or hi < 0 or 0 in ne:
+                if not self.constrain(lb[1], '==', 0, True):
+                    return False
+            elif lo == hi == 0:
+                if not self.constrain(lb[1], '!=', 0, True):
+                    return False
         if lb and lb[0] == 'and' and (lo > 0 or hi < 0 or 0 in ne) and lb[2] > 0 and lb[2] & (lb[2] - 1) == 0 and lb[1][0] == 's':
             # (x & bit) != 0: the bit is set in x
             self.bits[lb[1][1]] = self.bits.get(lb[1][1], 0) | lb[2]
@@ -604,8 +1204,10 @@ class SymExec:
     """Enumerates the paths of G; values are constants, symbols (with interval / disequality
     facts), negated symbols, addresses of access paths and function addresses."""
 
-    def __init__(self, G, max_paths=4000, max_visits=2):
+    def __init__(self, G, max_paths=4000, max_visits=2, prog=None, unit=None):
         self.G = G
+        self.prog = prog
+        self.unit = unit
         self.max_paths = max_paths
         self.max_visits = max_visits
         self.done = []
@@ -624,8 +1226,36 @@ class SymExec:
             return str(v[1])
         return str(v[1])
 
+    def const_key(self, key):
+        """initialiser denoted by a store key `T[2].f` of constant file-scope data (reached through a pointer that was
+        computed on the path), or None"""
+        import re
+        m = re.match(r'^([A-Za-z_]\w*)((?:\[\d+\]|\.[A-Za-z_]\w*)*)$', key)
+        if not m or self.prog is None or not m.group(2):
+            return None
+        g = self.prog.global_for(self.unit, m.group(1))
+        if not isinstance(g, dict) or g.get('extern_decl') or not constant_data(self.prog, self.unit, m.group(1)):
+            return None
+        d = g.get('init', ZERO)
+        for st in re.findall(r'\[\d+\]|\.[A-Za-z_]\w*', m.group(2)):
+            if not (isinstance(d, dict) and d.get('k') == 'init'):
+                return None
+            if st[0] == '[':
+                i = int(st[1:-1])
+                if 'elems' not in d or not (0 <= i < len(d['elems'])):
+                    return None
+                d = d['elems'][i]
+            else:
+                if 'fields' not in d:
+                    return None
+                d = d['fields'].get(st[1:], ZERO)
+        return d if isinstance(d, dict) and d.get('k') != 'init' else None
+
     def read(self, p, key):
         if key not in p.store:
+            d = self.const_key(key)
+            if d is not None:
+                return self.ev(p, d)
             p.store[key] = p.fresh(('init', key))
         return p.store[key]
 
@@ -674,10 +1304,42 @@ class SymExec:
             return '*%s' % self.vrepr(pv)
         return '?%s' % canon(e)
 
+    def const_data(self, p, e):
+        """initialiser an access path into constant file-scope data denotes (indices evaluated on the path), or None"""
+        if self.prog is None:
+            return None
+        x = strip(e)
+        if not isinstance(x, dict):
+            return None
+        k = x.get('k')
+        if k == 'var':
+            if _is_gvar(x) and constant_data(self.prog, self.unit, x['name']):
+                return self.prog.global_for(self.unit, x['name']).get('init', ZERO)
+            return None
+        if k == 'member' and not x['arrow']:
+            b = self.const_data(p, x['base'])
+            if isinstance(b, dict) and b.get('k') == 'init' and 'fields' in b:
+                return b['fields'].get(x['field'], ZERO)
+            return None
+        if k == 'index':
+            b = self.const_data(p, x['base'])
+            if not (isinstance(b, dict) and b.get('k') == 'init' and 'elems' in b):
+                return None
+            i = p.const_of(self.ev(p, x['idx']))
+            if i is not None and 0 <= i < len(b['elems']):
+                return b['elems'][i]
+        return None
+
     def ev(self, p, e):
         if not isinstance(e, dict):
             return p.fresh(('unknown', str(e)))
         k = e.get('k')
+        if k in ('load', 'member', 'index') and self.prog is not None:
+            x = strip(e)
+            if isinstance(x, dict) and x.get('k') in ('member', 'index') and _path_root_name(x) is not None:
+                d = self.const_data(p, x)
+                if isinstance(d, dict) and d.get('k') != 'init':
+                    return self.ev(p, d)
         if k in ('cast', 'stmtexpr', 'paren') and 'e' in e:
             return self.ev(p, e['e'])
         if k == 'load':
@@ -721,6 +1383,13 @@ class SymExec:
                 return ('c', int(not c))
             if e['op'] == '!' and v[0] in ('addr', 'fn'):
                 return ('c', 0)
+            if e['op'] == '!' and v[0] in ('s', 'neg'):
+                lo, hi, ne = p.bounds(v[1])
+                if lo > 0 or hi < 0 or 0 in ne:
+                    return ('c', 0)
+                n = p.fresh(('not', v[1]))
+                p.facts[n[1]] = (0, 1, frozenset())
+                return n
             if e['op'] == '~' and c is not None:
                 return ('c', ~c)
             return p.fresh(('expr', canon(e)))
@@ -737,6 +1406,18 @@ class SymExec:
                 if lb and lb[0] == 'or':
                     bits |= lb[1]
                 return p.fresh(('or', bits))
+            if e['op'] in ('==', '!=', '<', '<=', '>', '>=') and (ca is None or cb is None):
+                # a comparison used as a value (table index): decided by the facts of the path, if at all
+                from ..core import NEG
+                t = p.fork().assume_cmp(a, e['op'], b)
+                f = p.fork().assume_cmp(a, NEG[e['op']], b)
+                if t and not f:
+                    return ('c', 1)
+                if f and not t:
+                    return ('c', 0)
+                n = p.fresh(('expr', canon(e)))
+                p.facts[n[1]] = (0, 1, frozenset())
+                return n
             if ca is not None and cb is not None:
                 try:
                     return ('c', interp.evaluate({'k': 'bin', 'op': e['op'], 'l': {'k': 'int', 'v': ca}, 'r': {'k': 'int', 'v': cb}},
